@@ -31,54 +31,54 @@ const (
 	tDataResolver = "regen.data.v1.DataResolver"
 )
 
-var w16 int
+var zzvW16 int
 
-func exists16(table string, keys ...interface{}) bool {
-	if w16 == 0 {
+func zzvExists16(table string, keys ...interface{}) bool {
+	if zzvW16 == 0 {
 		return zz.OrmExists0(table, keys...)
 	}
 	return zz.OrmExists1(table, keys...)
 }
 
-func dataIDOK(r *api.DataID) bool { return r.Iri != "" }
-func dataAnchorOK(r *api.DataAnchor) bool {
-	return zz.And(exists16(tDataID, r.Id), r.Timestamp != nil)
+func zzvDataIDOK(r *api.DataID) bool { return r.Iri != "" }
+func zzvDataAnchorOK(r *api.DataAnchor) bool {
+	return zz.And(zzvExists16(tDataID, r.Id), r.Timestamp != nil)
 }
-func dataAttestorOK(r *api.DataAttestor) bool {
-	return zz.And(zz.And(exists16(tDataAnchor, r.Id), r.Timestamp != nil), len(r.Attestor) > 0)
+func zzvDataAttestorOK(r *api.DataAttestor) bool {
+	return zz.And(zz.And(zzvExists16(tDataAnchor, r.Id), r.Timestamp != nil), len(r.Attestor) > 0)
 }
-func dataResolverOK(r *api.DataResolver) bool {
-	return zz.And(exists16(tDataAnchor, r.Id), exists16(tResolver, r.ResolverId))
+func zzvDataResolverOK(r *api.DataResolver) bool {
+	return zz.And(zzvExists16(tDataAnchor, r.Id), zzvExists16(tResolver, r.ResolverId))
 }
 
-const dataPkg = "github.com/regen-network/regen-ledger/x/data/v3"
-const genesisPkg = dataPkg + "/genesis"
+const zzvDataPkg = "github.com/regen-network/regen-ledger/x/data/v3"
+const zzvGenesisPkg = zzvDataPkg + "/genesis"
 
-func install16() {
+func zzvInstall16() {
 	// IRI construction and content-hash validation are decided at byte level by the C15
 	// kernels; here they are functions of the content hash, nothing more
-	for _, f := range []string{"(" + dataPkg + ".ContentHash_Raw).ToIRI", "(" + dataPkg + ".ContentHash_Graph).ToIRI",
-		"(*" + dataPkg + ".ContentHash_Raw).Validate", "(*" + dataPkg + ".ContentHash_Graph).Validate", dataPkg + ".ParseIRI"} {
+	for _, f := range []string{"(" + zzvDataPkg + ".ContentHash_Raw).ToIRI", "(" + zzvDataPkg + ".ContentHash_Graph).ToIRI",
+		"(*" + zzvDataPkg + ".ContentHash_Raw).Validate", "(*" + zzvDataPkg + ".ContentHash_Graph).Validate", zzvDataPkg + ".ParseIRI"} {
 		zz.Summarize(f)
 	}
-	zz.OrmInvariant(tDataID, dataIDOK)
-	zz.OrmInvariant(tDataAnchor, dataAnchorOK)
-	zz.OrmInvariant(tDataAttestor, dataAttestorOK)
-	zz.OrmInvariant(tDataResolver, dataResolverOK)
+	zz.OrmInvariant(tDataID, zzvDataIDOK)
+	zz.OrmInvariant(tDataAnchor, zzvDataAnchorOK)
+	zz.OrmInvariant(tDataAttestor, zzvDataAttestorOK)
+	zz.OrmInvariant(tDataResolver, zzvDataResolverOK)
 }
 
-type step16 struct {
+type zzvStep16 struct {
 	err      error
 	panicked bool
 	now      time.Time
 }
 
-var errPanicked16 = data.ErrInvalidIRI.Wrap("handler panicked")
+var zzvErrPanicked16 = data.ErrInvalidIRI.Wrap("handler panicked")
 
-func call16(call func(ctx context.Context) error) (err error, panicked bool) {
+func zzvCall16(call func(ctx context.Context) error) (err error, panicked bool) {
 	defer func() {
 		if r := recover(); r != nil {
-			err = errPanicked16
+			err = zzvErrPanicked16
 			panicked = true
 		}
 	}()
@@ -88,23 +88,23 @@ func call16(call func(ctx context.Context) error) (err error, panicked bool) {
 // symServer: the real constructor over the model tables; the module database, the generated
 // state store and the ID hasher are replaced by the engine (tables with arbitrary content,
 // an uninterpreted hash function), everything else NewServer sets up is kept as it is.
-func symServer() serverImpl {
+func zzvSymServer() serverImpl {
 	return NewServer(nil, nil, nil)
 }
 
-func sameTS(a, b *timestamppb.Timestamp) bool {
+func zzvSameTS(a, b *timestamppb.Timestamp) bool {
 	return zz.And(a.GetSeconds() == b.GetSeconds(), a.GetNanos() == b.GetNanos())
 }
 
-func tsIs(a *timestamppb.Timestamp, t time.Time) bool {
+func zzvTsIs(a *timestamppb.Timestamp, t time.Time) bool {
 	return zz.And(a.GetSeconds() == t.Unix(), int(a.GetNanos()) == t.Nanosecond())
 }
 
 // runStep16 executes one message from an arbitrary pre-state and discharges the
 // obligations common to all four messages.
-func runStep16(req sdk.Msg, lemmas func(), call func(s serverImpl, ctx context.Context) error, hook func(st *step16)) {
-	install16()
-	s := symServer()
+func zzvRunStep16(req sdk.Msg, lemmas func(), call func(s serverImpl, ctx context.Context) error, hook func(st *zzvStep16)) {
+	zzvInstall16()
+	s := zzvSymServer()
 	zz.NondetInto("req", req)
 	zz.Assume(req.ValidateBasic() == nil)
 	if lemmas != nil {
@@ -116,9 +116,9 @@ func runStep16(req sdk.Msg, lemmas func(), call func(s serverImpl, ctx context.C
 	srid := zz.NondetU64("sk.resolver")
 	// executions with at most iter probes per content hash (collision chains up to iter-1)
 	zz.AssumeLoopBound("getOrCreateDataID", zz.Bound("iter", 2))
-	st := &step16{now: sdk.UnwrapSDKContext(zz.Context()).BlockTime()}
+	st := &zzvStep16{now: sdk.UnwrapSDKContext(zz.Context()).BlockTime()}
 	zz.OrmBegin()
-	st.err, st.panicked = call16(func(ctx context.Context) error { return call(s, ctx) })
+	st.err, st.panicked = zzvCall16(func(ctx context.Context) error { return call(s, ctx) })
 	zz.OrmRollbackIf(st.err != nil)
 	zz.Assert(!st.panicked, "C16 the handler does not panic")
 
@@ -140,15 +140,15 @@ func runStep16(req sdk.Msg, lemmas func(), call func(s serverImpl, ctx context.C
 	had = zz.OrmRow0(tDataAnchor, &a0, sid)
 	has = zz.OrmRow1(tDataAnchor, &a1, sid)
 	zz.Assert(zz.Implies(had, has), "C16 an anchor is never removed")
-	zz.Assert(zz.Implies(had, sameTS(a1.Timestamp, a0.Timestamp)), "C16 an anchor timestamp never changes")
-	zz.Assert(zz.Implies(zz.And(!had, has), tsIs(a1.Timestamp, st.now)), "C16 a new anchor carries the block time")
+	zz.Assert(zz.Implies(had, zzvSameTS(a1.Timestamp, a0.Timestamp)), "C16 an anchor timestamp never changes")
+	zz.Assert(zz.Implies(zz.And(!had, has), zzvTsIs(a1.Timestamp, st.now)), "C16 a new anchor carries the block time")
 	// attestations
 	var t0, t1 api.DataAttestor
 	had = zz.OrmRow0(tDataAttestor, &t0, sid, satt)
 	has = zz.OrmRow1(tDataAttestor, &t1, sid, satt)
 	zz.Assert(zz.Implies(had, has), "C16 an attestation is never removed")
-	zz.Assert(zz.Implies(had, sameTS(t1.Timestamp, t0.Timestamp)), "C16 an attestation timestamp never changes")
-	zz.Assert(zz.Implies(zz.And(!had, has), tsIs(t1.Timestamp, st.now)), "C16 a new attestation carries the block time")
+	zz.Assert(zz.Implies(had, zzvSameTS(t1.Timestamp, t0.Timestamp)), "C16 an attestation timestamp never changes")
+	zz.Assert(zz.Implies(zz.And(!had, has), zzvTsIs(t1.Timestamp, st.now)), "C16 a new attestation carries the block time")
 	// resolvers and registrations
 	var r0, r1 api.Resolver
 	had = zz.OrmRow0(tResolver, &r0, srid)
@@ -161,17 +161,17 @@ func runStep16(req sdk.Msg, lemmas func(), call func(s serverImpl, ctx context.C
 		hook(st)
 	}
 	// R16 on everything written
-	w16 = 1
-	zz.Assert(zz.AllWritten(tDataID, dataIDOK), "C16 written DataID rows are well formed")
-	zz.Assert(zz.AllWritten(tDataAnchor, dataAnchorOK), "C16 every anchor has its data id")
-	zz.Assert(zz.AllWritten(tDataAttestor, dataAttestorOK), "C16 every attestation has its anchor")
-	zz.Assert(zz.AllWritten(tDataResolver, dataResolverOK), "C16 every registration has its anchor and resolver")
-	w16 = 0
+	zzvW16 = 1
+	zz.Assert(zz.AllWritten(tDataID, zzvDataIDOK), "C16 written DataID rows are well formed")
+	zz.Assert(zz.AllWritten(tDataAnchor, zzvDataAnchorOK), "C16 every anchor has its data id")
+	zz.Assert(zz.AllWritten(tDataAttestor, zzvDataAttestorOK), "C16 every attestation has its anchor")
+	zz.Assert(zz.AllWritten(tDataResolver, zzvDataResolverOK), "C16 every registration has its anchor and resolver")
+	zzvW16 = 0
 	// C09 (data module): every row a handler writes is accepted by the validator the module's
 	// own ValidateGenesis applies to each row of an exported state (genesis.validateMsg, the
 	// JSONValidator of the module database; the real function is executed, its protobuf JSON
 	// round trip PulsarToGogoSlow is a field-wise copy in the engine).
-	genesisOK := func(m interface{}) bool { return zz.CallUnexported(genesisPkg, "validateMsg", m) == nil }
+	genesisOK := func(m interface{}) bool { return zz.CallUnexported(zzvGenesisPkg, "validateMsg", m) == nil }
 	zz.Assert(zz.AllWritten(tDataID, func(r *api.DataID) bool { return genesisOK(r) }), "C09 written DataID rows pass genesis validation")
 	zz.Assert(zz.AllWritten(tDataAnchor, func(r *api.DataAnchor) bool { return genesisOK(r) }), "C09 written DataAnchor rows pass genesis validation")
 	zz.Assert(zz.AllWritten(tDataAttestor, func(r *api.DataAttestor) bool { return genesisOK(r) }), "C09 written DataAttestor rows pass genesis validation")
@@ -188,7 +188,7 @@ func runStep16(req sdk.Msg, lemmas func(), call func(s serverImpl, ctx context.C
 // by ParseIRI (both are what the C15 kernels decide at byte level: "C15 ParseIRI accepts the
 // IRI of a valid raw/graph hash"; ParseIRI rejects the empty string). Here ToIRI, Validate
 // and ParseIRI are uninterpreted functions related by exactly these two facts.
-func iriLemma(ch interface {
+func zzvIriLemma(ch interface {
 	ToIRI() (string, error)
 	Validate() error
 }) {
@@ -202,7 +202,7 @@ func iriLemma(ch interface {
 
 // anchored16: after a successful message the content hash's IRI has an id, that id is
 // anchored, and the id row carries exactly this IRI.
-func anchored16(iri string, what string) (id []byte) {
+func zzvAnchored16(iri string, what string) (id []byte) {
 	var row api.DataID
 	ok := zz.OrmLookup1(tDataID, "Iri", &row, iri)
 	zz.Assert(ok, "C16 "+what+": the IRI has an id")
@@ -213,18 +213,18 @@ func anchored16(iri string, what string) (id []byte) {
 func VerifHarness_C16_Anchor() {
 	req := &data.MsgAnchor{}
 	var resp *data.MsgAnchorResponse
-	runStep16(req, func() { iriLemma(req.ContentHash) }, func(s serverImpl, ctx context.Context) error {
+	zzvRunStep16(req, func() { zzvIriLemma(req.ContentHash) }, func(s serverImpl, ctx context.Context) error {
 		var err error
 		resp, err = s.Anchor(ctx, req)
 		return err
-	}, func(st *step16) {
+	}, func(st *zzvStep16) {
 		if st.err != nil {
 			return
 		}
 		iri, err := req.ContentHash.ToIRI()
 		zz.Assert(err == nil, "C16 Anchor succeeds only for a content hash with an IRI")
 		zz.Assert(resp.Iri == iri, "C16 Anchor responds with the IRI of the content hash")
-		id := anchored16(iri, "Anchor")
+		id := zzvAnchored16(iri, "Anchor")
 		var a api.DataAnchor
 		zz.OrmRow1(tDataAnchor, &a, id)
 		zz.Assert(zz.And(resp.Timestamp != nil, zz.And(a.Timestamp.GetSeconds() == resp.Timestamp.GetSeconds(), a.Timestamp.GetNanos() == resp.Timestamp.GetNanos())), "C16 Anchor responds with the stored anchor timestamp")
@@ -233,14 +233,14 @@ func VerifHarness_C16_Anchor() {
 
 func VerifHarness_C16_Attest() {
 	req := &data.MsgAttest{}
-	runStep16(req, func() {
+	zzvRunStep16(req, func() {
 		for _, ch := range req.ContentHashes {
-			iriLemma(ch)
+			zzvIriLemma(ch)
 		}
 	}, func(s serverImpl, ctx context.Context) error {
 		_, err := s.Attest(ctx, req)
 		return err
-	}, func(st *step16) {
+	}, func(st *zzvStep16) {
 		if st.err != nil {
 			return
 		}
@@ -248,7 +248,7 @@ func VerifHarness_C16_Attest() {
 		for _, ch := range req.ContentHashes {
 			iri, err := ch.ToIRI()
 			zz.Assert(err == nil, "C16 Attest succeeds only for content hashes with an IRI")
-			id := anchored16(iri, "Attest")
+			id := zzvAnchored16(iri, "Attest")
 			zz.Assert(zz.OrmExists1(tDataAttestor, id, []byte(addr)), "C16 Attest records the attestation")
 		}
 		// nobody else's attestation appears
@@ -261,11 +261,11 @@ func VerifHarness_C16_Attest() {
 func VerifHarness_C16_DefineResolver() {
 	req := &data.MsgDefineResolver{}
 	var resp *data.MsgDefineResolverResponse
-	runStep16(req, nil, func(s serverImpl, ctx context.Context) error {
+	zzvRunStep16(req, nil, func(s serverImpl, ctx context.Context) error {
 		var err error
 		resp, err = s.DefineResolver(ctx, req)
 		return err
-	}, func(st *step16) {
+	}, func(st *zzvStep16) {
 		if st.err != nil {
 			return
 		}
@@ -286,14 +286,14 @@ func VerifHarness_C16_DefineResolver() {
 
 func VerifHarness_C16_RegisterResolver() {
 	req := &data.MsgRegisterResolver{}
-	runStep16(req, func() {
+	zzvRunStep16(req, func() {
 		for _, ch := range req.ContentHashes {
-			iriLemma(ch)
+			zzvIriLemma(ch)
 		}
 	}, func(s serverImpl, ctx context.Context) error {
 		_, err := s.RegisterResolver(ctx, req)
 		return err
-	}, func(st *step16) {
+	}, func(st *zzvStep16) {
 		if st.err != nil {
 			zz.Assert(zz.OrmWrites(tDataResolver) == 0, "C16 a failed RegisterResolver registers nothing")
 			return
@@ -307,7 +307,7 @@ func VerifHarness_C16_RegisterResolver() {
 		for _, ch := range req.ContentHashes {
 			iri, err := ch.ToIRI()
 			zz.Assert(err == nil, "C16 RegisterResolver succeeds only for content hashes with an IRI")
-			id := anchored16(iri, "RegisterResolver")
+			id := zzvAnchored16(iri, "RegisterResolver")
 			zz.Assert(zz.OrmExists1(tDataResolver, id, req.ResolverId), "C16 RegisterResolver records the registration")
 		}
 		zz.Assert(zz.AllWritten(tDataResolver, func(x *api.DataResolver) bool { return x.ResolverId == req.ResolverId }), "C16 RegisterResolver registers to the named resolver only")
@@ -316,9 +316,9 @@ func VerifHarness_C16_RegisterResolver() {
 
 // ---- C10 (data module): determinism of the four handlers by self-composition
 
-func runDet16(req sdk.Msg, lemmas func(), call func(s serverImpl, ctx context.Context) (interface{}, error)) {
-	install16()
-	s := symServer()
+func zzvRunDet16(req sdk.Msg, lemmas func(), call func(s serverImpl, ctx context.Context) (interface{}, error)) {
+	zzvInstall16()
+	s := zzvSymServer()
 	zz.NondetInto("req", req)
 	zz.Assume(req.ValidateBasic() == nil)
 	if lemmas != nil {
@@ -329,7 +329,7 @@ func runDet16(req sdk.Msg, lemmas func(), call func(s serverImpl, ctx context.Co
 	run := func() (resp interface{}, err error, panicked bool) {
 		defer func() {
 			if r := recover(); r != nil {
-				err = errPanicked16
+				err = zzvErrPanicked16
 				panicked = true
 			}
 		}()
@@ -353,28 +353,28 @@ func runDet16(req sdk.Msg, lemmas func(), call func(s serverImpl, ctx context.Co
 
 func VerifHarness_C10_Anchor() {
 	req := &data.MsgAnchor{}
-	runDet16(req, func() { iriLemma(req.ContentHash) }, func(s serverImpl, ctx context.Context) (interface{}, error) { return s.Anchor(ctx, req) })
+	zzvRunDet16(req, func() { zzvIriLemma(req.ContentHash) }, func(s serverImpl, ctx context.Context) (interface{}, error) { return s.Anchor(ctx, req) })
 }
 
 func VerifHarness_C10_Attest() {
 	req := &data.MsgAttest{}
-	runDet16(req, func() {
+	zzvRunDet16(req, func() {
 		for _, ch := range req.ContentHashes {
-			iriLemma(ch)
+			zzvIriLemma(ch)
 		}
 	}, func(s serverImpl, ctx context.Context) (interface{}, error) { return s.Attest(ctx, req) })
 }
 
 func VerifHarness_C10_DefineResolver() {
 	req := &data.MsgDefineResolver{}
-	runDet16(req, nil, func(s serverImpl, ctx context.Context) (interface{}, error) { return s.DefineResolver(ctx, req) })
+	zzvRunDet16(req, nil, func(s serverImpl, ctx context.Context) (interface{}, error) { return s.DefineResolver(ctx, req) })
 }
 
 func VerifHarness_C10_RegisterResolver() {
 	req := &data.MsgRegisterResolver{}
-	runDet16(req, func() {
+	zzvRunDet16(req, func() {
 		for _, ch := range req.ContentHashes {
-			iriLemma(ch)
+			zzvIriLemma(ch)
 		}
 	}, func(s serverImpl, ctx context.Context) (interface{}, error) { return s.RegisterResolver(ctx, req) })
 }
